@@ -5,18 +5,15 @@
 (* the event that Renet.tla (per connection) and the table / event queue   *)
 (* semantics of server.rs produce from the model state reached so far.     *)
 (* Used for the behaviours exported from MC_Server (C11, C12).  Calls the  *)
-(* model does not cover (local clients) end the comparison of that run     *)
-(* without counting as drift.                                              *)
+(* model does not cover would end the comparison of that run without       *)
+(* counting as drift (none at present: local clients are modelled too).    *)
 (***************************************************************************)
-EXTENDS Renet, Json, IOUtils
+EXTENDS RenetSrv, Json, IOUtils
 
 Rec == ndJsonDeserialize(IOEnv.TRACE)
 
 VARIABLES l, W, has, evq, skip, cnt
 vars == <<l, W, has, evq, skip, cnt>>
-
-GoneProj == [status |-> "Gone", reason |-> "None", rch |-> 0 - 1,
-             avail |-> [i \in 1..Len(ChSC) |-> 0], rmem |-> [i \in 1..Len(ChCS) |-> 0], unacked |-> [i \in 1..Len(ChSC) |-> <<>>]]
 
 Init == /\ l = 1 /\ W = <<>> /\ has = <<>> /\ evq = <<>> /\ skip = FALSE
         /\ cnt = [runs |-> 0, matched |-> 0, drift |-> 0, accepted |-> 0, unmodelled |-> 0]
@@ -71,6 +68,9 @@ Predict(e) ==
              evq |-> IF has[c] THEN Append(evq, [type |-> "Disconnected", id |-> c,
                                                 reason |-> IF W[c].ep["S"].status = "Disc" THEN W[c].ep["S"].reason ELSE "Transport"]) ELSE evq,
              ev |-> [ev |-> "api", conn |-> c, side |-> "S", call |-> e.call, st0 |-> IF has[c] THEN Proj(W[c].ep["S"], "S") ELSE GoneProj, st1 |-> GoneProj]]
+      [] e.ev = "api" /\ e.side = "S" /\ e.call \in LocalCalls ->
+            LET r == SrvLocal(e.call, W[c], has[c], evq, c)
+            IN [W |-> [W EXCEPT ![c] = r.w], has |-> [has EXCEPT ![c] = r.present], evq |-> r.evq, ev |-> r.ev]
       [] e.ev = "api" /\ e.side = "S" /\ e.call = "disconnect_all" ->
             [W |-> [x \in DOMAIN W |-> IF has[x] THEN DoApi(W[x], "S", "disconnect").w ELSE W[x]], has |-> has, evq |-> evq, ev |-> [ev |-> "api"]]
       [] e.ev = "api" /\ e.side = "S" -> IF absent THEN Same(Gone(e) @@ [call |-> e.call]) ELSE OnConn(c, DoApi(W[c], "S", e.call))
@@ -85,7 +85,7 @@ Predict(e) ==
              ev |-> [ev |-> "bcast", targets |-> SortedC({x \in DOMAIN W : has[x] /\ W[x].ep["S"].status # "Disc"})]]
 
 Known(e) == e.ev \in {"send", "recv", "flush", "deliver", "update", "api", "get_event", "bcast"}
-Unmodelled(e) == e.ev = "api" /\ e.call \in {"new_local_client", "disconnect_local_client", "process_local_client"}
+Unmodelled(e) == FALSE
 \* the harness clock of a server side connection is the server's, the model's restarts with every add_connection
 Ignore(e) == (IF e.ev = "update" /\ e.conn = 0 THEN {"conn", "st0", "st1", "dt", "t", "side"} ELSE {})
              \cup (IF e.ev \in {"flush", "update"} /\ e.side = "S" THEN {"t"} ELSE {})
